@@ -111,7 +111,59 @@ pub fn run(rep: &mut Rep) {
     }
     tails.push(("a0".into(), vec![0xa0]));
     tails.push(("f6".into(), vec![0xf6]));
-    let n_random = if rep.thorough() { 20_000 } else { 64 };
+    // one byte value repeated (deep nesting for 0x80..=0xBF, runs of every head kind), and runs of
+    // random bytes of a single major type
+    for v in 0..=255u8 {
+        for k in [1usize, 2, 3, 8, 9, 10, 16, 33, 64, 300] {
+            tails.push(("repeated-byte".into(), vec![v; k]));
+        }
+    }
+    for major in 0..8u8 {
+        for k in [9usize, 20, 40] {
+            for _ in 0..3 {
+                tails.push(("single-major-type-run".into(), (0..k).map(|_| (major << 5) | rng.below(32) as u8).collect()));
+            }
+        }
+    }
+    // complete CTAP2 messages wrapped the way other layers frame them (the command byte under test
+    // then plays the role of an APDU class byte, a channel id byte, a length ...): ISO 7816 short
+    // and extended APDUs (NFCCTAP_MSG is 80 10 00 00 Lc ..), CTAPHID initialisation packets, plain
+    // length prefixes, and the bare inner message
+    let mut inners: Vec<Vec<u8>> = vec![vec![0x04], vec![0x07], vec![0x08], vec![0x0b], vec![0x04, 0xa0]];
+    for (c, _, s) in schema::commands() {
+        if matches!(c, 0x01 | 0x02 | 0x06) {
+            let mut g = G::new(&mut rng);
+            g.small = true;
+            g.top_mask = Some(0);
+            let mut m = vec![c];
+            m.extend_from_slice(&encode(&gen_message(&s, &mut g)));
+            inners.push(m);
+        }
+    }
+    for inner in &inners {
+        let l = inner.len();
+        let l16 = (l as u16).to_be_bytes();
+        let mut env: Vec<Vec<u8>> = vec![inner.clone(), [&l16[..], inner].concat()];
+        for ins in [0x10u8, 0x00, 0x01, 0x02, 0x03] {
+            env.push([&[ins, 0, 0, 0, l16[0], l16[1]][..], inner].concat());
+            env.push([&[ins, 0, 0, 0, l16[0], l16[1]][..], inner, &[0, 0]].concat());
+            if l <= 255 {
+                env.push([&[ins, 0, 0, l as u8][..], inner].concat());
+                env.push([&[ins, 0, 0, l as u8][..], inner, &[0]].concat());
+                env.push([&[ins, 0x80, 0, l as u8][..], inner].concat());
+            }
+        }
+        if l <= 255 {
+            env.push([&[l as u8][..], inner].concat());
+        }
+        for cid in [[0xffu8, 0xff, 0xff], [0, 0, 1], [0x12, 0x34, 0x56]] {
+            env.push([&cid[..], &[0x90, l16[0], l16[1]][..], inner].concat());
+        }
+        for e in env {
+            tails.push(("framed-inner-message".into(), e));
+        }
+    }
+    let n_random = if rep.thorough() { 20_000 } else { 1000 };
     let mut case = 0u64;
     for b in 0..=255u8 {
         let mut all = tails.clone();
